@@ -18,7 +18,7 @@ def gen(rng, tier):
     n = 1200 if tier == 'quick' else 30000
     for k in range(n):
         mode = rng.choice(['small', 'small', 'small', 'small', 'wide', 'medium', 'dense'])
-        regs = R.rand_regions(rng, mode, rng.choice([0, 1, 2, 3, 5, 8, 12]), rng.choice(['le', 'ne', 'ne']), rng.choice([1, 2, 3]))
+        regs = R.rand_regions(rng, mode, rng.choice([0, 1, 2, 3, 5, 8, 12]), rng.choice(['le', 'ne', 'ne', 'any']), rng.choice([1, 2, 3]))
         if regs and rng.random() < 0.5:
             regs.insert(rng.randint(0, len(regs)), rng.choice(regs))
         dup = len(set(regs)) < len(regs)
